@@ -41,7 +41,7 @@ def classify(err):
     m = re.match(r"([a-zA-Z \-]+)", err)
     return re.sub(r"\s+", "-", m.group(1).strip()) if m else "error"
 
-def make_case(alpha, L, formats, archive):
+def make_case(alpha, L, formats, archive, POS=POS):
     n = len(alpha)
     def case(idx):
         ei = idx % len(EXTS); idx //= len(EXTS); fi = idx % len(formats); idx //= len(formats); pi = idx % len(POS); idx //= len(POS)
@@ -94,6 +94,13 @@ def run(tier):
         case, n = make_case(LONG, 1, fmts, arch)
         res = pmap.pmap(n, case, init_fn=mmd.init_worker, deadline_s=dl * 0.9)
         pmap.fold(rep, "length-ladder-%s" % "+".join(f for f, _ in fmts), n, res, "one word of %d lengths/kinds (ASCII 60..4100 bytes around powers of two; runs of 2-, 3- and 4-byte characters at four byte offsets) x %d positions x %s x 5 extension sets" % (len(LONG), len(POS), "/".join(f for f, _ in fmts)))
+    # last character: the probe is the last thing in its construct (writers that trim or cut the end of a title, cell or value work on bytes)
+    ENDPOS = [(nm + "-end", pre, post.replace(b" qb", b"").replace(b"qb", b"")) for nm, pre, post in POS] + [("closed-heading-end", b"## qa ", b" ##\n"), ("heading-end-then-text", b"# qa ", b"\ntext\n")]
+    LAST = [x.encode() for x in ("\u00e0", "\u00e9", "\u00c2", "\u0160", "\u2020", "\u3002", "\U0001F620", "\U0001F600", "\u00a0", "x\u00a0", "\u00e0 ", "\u00e0\t", "&", "<", "\"", "\\")]      # final bytes 0xA0, 0xA9, 0x82, 0x80, ...; a real no-break space; trailing blanks after one
+    for fmts, arch in ((TEXTUAL, False), (ARCHIVES, True)):
+        case, n = make_case(LAST, 1, fmts, arch, ENDPOS)
+        res = pmap.pmap(n, case, init_fn=mmd.init_worker, deadline_s=dl * 0.9)
+        pmap.fold(rep, "last-character-%s" % "+".join(f for f, _ in fmts), n, res, "%d characters (2-, 3- and 4-byte, with final bytes 0xA0/0xA9/0x82/0x80, a real no-break space, reserved ASCII) as the LAST character of the construct in %d positions x %s x 5 extension sets" % (len(LAST), len(ENDPOS), "/".join(f for f, _ in fmts)))
     # empty components: every construct with its text, URL, title, label or value left empty
     EMPTY = [b"![alt]()\n", b"![alt](<>)\n", b"![](i.png)\n", b"![]()\n", b"![alt][r]\n\n[r]: <>\n", b"![alt](i.png \"\")\n", b"[text]()\n", b"[](http://u/)\n", b"[text](<>)\n", b"[text](u \"\")\n", b"[t][r]\n\n[r]: <> \"\"\n",
              b"#\n\ntext\n", b"# []\n", b"## ##\n", b"x[^f]\n\n[^f]:\n", b"x[^f]\n\n[^f]: \n", b"[>ab]:\n\nab\n", b"[?g]:\n\n[?g]\n", b"[#c]:\n\n[#c]\n", b"| |\n|-|\n| |\n", b"|a|\n|-|\n[]\n", b"term\n:\n", b"```\n```\n", b"``` \n\n```\n",
